@@ -22,12 +22,19 @@ inductive LProto
 def LProto.all : List LProto := [.unknown, .tcp, .http, .auto]
 def MTLS.all : List MTLS := [.unknown, .disable, .permissive, .strict]
 
-/-- ALPN class of a chain's `application_protocols`. -/
-inductive Alpn
-  | any          -- no application_protocols match
-  | istio        -- only Istio mTLS ALPNs (istio, istio-peer-exchange, istio-http/1.x, istio-h2)
-  | plain        -- plaintext HTTP ALPNs
-  deriving DecidableEq, Repr
+/-- `filter_chain_match.application_protocols`: the real ALPN lists (pilot/pkg/networking/core/listener.go). -/
+abbrev Alpn := List String
+
+/-- no application_protocols match -/
+def Alpn.any : Alpn := []
+/-- `mtlsHTTPALPNs` -/
+def Alpn.mtlsHTTP : Alpn := ["istio-http/1.0", "istio-http/1.1", "istio-h2"]
+/-- `allIstioMtlsALPNs` -/
+def Alpn.allIstio : Alpn := ["istio", "istio-peer-exchange", "istio-http/1.0", "istio-http/1.1", "istio-h2"]
+/-- `mtlsTCPWithMxcALPNs` -/
+def Alpn.mtlsTCPMxc : Alpn := ["istio-peer-exchange", "istio"]
+/-- `plaintextHTTPALPNs` (HTTP/1.0 support off, the default) -/
+def Alpn.plainHTTP : Alpn := ["http/1.1", "h2c"]
 
 /-- Transport socket of the chain. -/
 inductive Sock
@@ -64,19 +71,19 @@ def chains (mode : MTLS) (proto : LProto) : List Chain :=
   | .http =>
     match mode with
     | .strict => [mk mode true true true .any]
-    | .permissive => [mk mode true true true .istio, mk mode false false true .any]
+    | .permissive => [mk mode true true true .allIstio, mk mode false false true .any]
     | _ => [mk mode false false true .any]
   | .auto =>
     match mode with
-    | .strict => [mk mode true true true .istio, mk mode true true false .any]
+    | .strict => [mk mode true true true .mtlsHTTP, mk mode true true false .any]
     | .permissive =>
-      [mk mode true true true .istio, mk mode false false true .plain, mk mode true true false .istio,
+      [mk mode true true true .mtlsHTTP, mk mode false false true .plainHTTP, mk mode true true false .mtlsTCPMxc,
        mk mode false false false .any, mk mode true false false .any]
-    | _ => [mk mode false false true .plain, mk mode false false false .any]
+    | _ => [mk mode false false true .plainHTTP, mk mode false false false .any]
   | _ =>
     match mode with
     | .strict => [mk mode true true false .any]
-    | .permissive => [mk mode true true false .istio, mk mode true false false .any, mk mode false false false .any]
+    | .permissive => [mk mode true true false .allIstio, mk mode true false false .any, mk mode false false false .any]
     | _ => [mk mode false false false .any]
 
 /-! ## What a chain does with a connection -/
@@ -92,6 +99,69 @@ def Chain.terminatesOneWayTLS (c : Chain) : Bool := c.sock == .tls
 
 /-- A chain terminates Istio mutual TLS. -/
 def Chain.terminatesMTLS (c : Chain) : Bool := c.transportTLS && c.sock == .mtls
+
+/-! ## Which chain Envoy selects for a connection (transport protocol, then application protocols) -/
+
+/-- What the listener filters detect about a connection: TLS or not (TLS inspector), and the ALPNs
+    the client offers in order (TLS: ClientHello; plaintext: what the HTTP inspector infers). -/
+structure Conn where
+  tls   : Bool
+  alpns : List String
+  deriving DecidableEq, Repr
+
+/-- Envoy's application-protocol stage: the first ALPN of the connection that some chain lists selects
+    the chains listing it. -/
+def firstAlpnHit (cs : List Chain) : List String → List Chain
+  | [] => []
+  | a :: t =>
+    let hit := cs.filter (fun c => c.alpn.contains a)
+    if hit.isEmpty then firstAlpnHit cs t else hit
+
+/-- Envoy's filter-chain selection among the chains of one destination port: the transport-protocol
+    stage (all inbound chains name a transport protocol), then the application-protocol stage with its
+    fallback to the chains without application protocols. -/
+def selectChains (cs : List Chain) (conn : Conn) : List Chain :=
+  let byTP := cs.filter (fun c => c.transportTLS == conn.tls)
+  let hit := firstAlpnHit byTP conn.alpns
+  if hit.isEmpty then byTP.filter (fun c => c.alpn.isEmpty) else hit
+
+/-- The clients the property speaks about. -/
+inductive Client
+  | mtlsTCP        -- Istio sidecar, TCP, metadata exchange: ALPN istio-peer-exchange, istio
+  | mtlsTCPNoMx    -- Istio sidecar, TCP: ALPN istio
+  | mtlsHTTP10     -- Istio sidecar, HTTP/1.0 (ALPN override filter)
+  | mtlsHTTP11     -- Istio sidecar, HTTP/1.1
+  | mtlsH2         -- Istio sidecar, HTTP/2
+  | plainTCP       -- plaintext, not recognised as HTTP
+  | plainHTTP11    -- plaintext HTTP/1.1 (HTTP inspector)
+  | plainH2C       -- plaintext HTTP/2
+  | foreignTLS     -- TLS that is not Istio's, HTTP ALPNs
+  | foreignTLSNoAlpn
+  deriving DecidableEq, Repr
+
+def Client.all : List Client :=
+  [.mtlsTCP, .mtlsTCPNoMx, .mtlsHTTP10, .mtlsHTTP11, .mtlsH2, .plainTCP, .plainHTTP11, .plainH2C, .foreignTLS, .foreignTLSNoAlpn]
+
+/-- `util.ALPNInMeshWithMxc`, `ALPNInMesh`, `mtlsHTTP1xALPN` / `mtlsHTTP2ALPN` (xds/filters), HTTP inspector. -/
+def Client.conn : Client → Conn
+  | .mtlsTCP => ⟨true, ["istio-peer-exchange", "istio"]⟩
+  | .mtlsTCPNoMx => ⟨true, ["istio"]⟩
+  | .mtlsHTTP10 => ⟨true, ["istio-http/1.0", "istio", "http/1.0"]⟩
+  | .mtlsHTTP11 => ⟨true, ["istio-http/1.1", "istio", "http/1.1"]⟩
+  | .mtlsH2 => ⟨true, ["istio-h2", "istio", "h2"]⟩
+  | .plainTCP => ⟨false, []⟩
+  | .plainHTTP11 => ⟨false, ["http/1.1"]⟩
+  | .plainH2C => ⟨false, ["h2c"]⟩
+  | .foreignTLS => ⟨true, ["h2", "http/1.1"]⟩
+  | .foreignTLSNoAlpn => ⟨true, []⟩
+
+def Client.isMTLS : Client → Bool
+  | .mtlsTCP | .mtlsTCPNoMx | .mtlsHTTP10 | .mtlsHTTP11 | .mtlsH2 => true
+  | _ => false
+
+def Client.isPlain : Client → Bool
+  | .plainTCP | .plainHTTP11 | .plainH2C => true
+  | _ => false
 
 /-! ## The virtualInbound listener -/
 
@@ -160,9 +230,23 @@ def chainConfigs (services ingress : List SvcPort) (merge : Bool) : List SvcPort
     firstPerTarget (services.filter (fun s => !(ingress.any (fun i => i.target == s.target))) ++ ingress)
   else firstPerTarget ingress
 
-/-- The ports `needPerPortPassthroughFilterChain` treats as declared. -/
-def declaredPorts (services ingress : List SvcPort) : List Nat :=
-  if ingress.isEmpty then services.map (fun s => s.target) else ingress.map (fun s => s.target)
+/-- The ports `needPerPortPassthroughFilterChain` treats as declared: the service target ports when the
+    Sidecar has no ingress listener, else the ingress ports - and, with inbound listener merge, the service
+    target ports as well (`fixF14 = false`: the pinned tree forgot them, finding F14). -/
+def declaredPorts (services ingress : List SvcPort) (merge : Bool := false) (fixF14 : Bool := true) : List Nat :=
+  if ingress.isEmpty then services.map (fun s => s.target)
+  else if merge && fixF14 then ingress.map (fun s => s.target) ++ services.map (fun s => s.target)
+  else ingress.map (fun s => s.target)
+
+/-- What Envoy compares to reject "multiple filter chains with the same matching rules": the listener,
+    the destination port, the transport protocol and the application protocols of a chain. -/
+def LChain.matchKey (c : LChain) : Option Nat × Option Nat × Bool × Alpn :=
+  (c.lst, c.dst, c.chain.transportTLS, c.chain.alpn)
+
+/-- Number of chains whose match repeats the match of an earlier chain. -/
+def dupMatches : List LChain → Nat
+  | [] => 0
+  | c :: t => (if t.any (fun x => x.matchKey == c.matchKey) then 1 else 0) + dupMatches t
 
 /-- The filter chains of the virtualInbound listener of a sidecar with the given chain configs:
     per-config chains (`ForPort` of the target port), the catch-all passthrough chains (port 0) and one
@@ -206,5 +290,16 @@ def listenerFor (l : List LChain) (d : Nat) : List LChain :=
 
 /-- The filter chains Envoy selects for a connection to destination port `d`. -/
 def applicable (l : List LChain) (d : Nat) : List Chain := applicableIn (listenerFor l d) d
+
+/-- A proxy with interception mode NONE (no iptables redirection): no virtualInbound listener, no chain
+    configs from services, every Sidecar ingress listener binds to its own port. -/
+def inboundChainsNone (root : String) (ps : List PA) (w : Workload) (ingress : List SvcPort) : List LChain :=
+  let m := compose root ((initAuthn root ps).configsFor w)
+  (firstPerTarget ingress).flatMap (fun sp => entryChains m { sp with bind := true })
+
+/-- `populateListenerFilters` / `buildTLSInspector`: the TLS inspector is enabled for a destination port iff
+    one of the chains considered for that port matches transport protocol `tls` (ports without chains of
+    their own follow the catch-all chains; the blackhole chain names no transport protocol). -/
+def tlsInspectorOn (l : List LChain) (d : Nat) : Bool := (applicable l d).any (fun c => c.transportTLS)
 
 end IstioModel.C10
